@@ -939,3 +939,117 @@ func (p *Program) detectTypeRenames() map[string]string {
 	}
 	return res
 }
+
+// FieldSig is one struct field of the reference snapshot (fields.json).
+type FieldSig struct {
+	Pkg   string `json:"pkg"`  // import path
+	Type  string `json:"type"` // named struct type
+	Name  string `json:"name"`
+	FType string `json:"ftype"`
+	Index int    `json:"index"`
+}
+
+// FieldSnapshot lists the fields of the named struct types of the module.
+func (p *Program) FieldSnapshot() []FieldSig {
+	var out []FieldSig
+	q := func(tp *types.Package) string { return tp.Name() }
+	for _, pk := range p.Pkgs {
+		scope := pk.Types.Scope()
+		for _, name := range scope.Names() {
+			tn, ok := scope.Lookup(name).(*types.TypeName)
+			if !ok {
+				continue
+			}
+			st, ok := tn.Type().Underlying().(*types.Struct)
+			if !ok {
+				continue
+			}
+			for i := 0; i < st.NumFields(); i++ {
+				out = append(out, FieldSig{Pkg: pk.Types.Path(), Type: name, Name: st.Field(i).Name(), FType: types.TypeString(st.Field(i).Type(), q), Index: i})
+			}
+		}
+	}
+	return out
+}
+
+// FieldRenames returns "pkgpath.Type.currentName" -> reference name for fields that the reference has and the
+// tree lacks, paired with a field of the same struct and type that the tree has and the reference lacks
+// (unambiguous pairs only). Types renamed as a whole are looked up under their reference name.
+func (p *Program) FieldRenames() map[string]string {
+	res := map[string]string{}
+	if SnapshotPath == "" {
+		return res
+	}
+	b, err := os.ReadFile(filepath.Join(filepath.Dir(SnapshotPath), "fields.json"))
+	if err != nil {
+		return res
+	}
+	var ref []FieldSig
+	if json.Unmarshal(b, &ref) != nil {
+		return res
+	}
+	typeOld := p.detectTypeRenames() // "pkgname.Cur" -> "pkgname.Old"
+	oldTypeName := func(pkgPath, cur string) string {
+		pn := pkgPath
+		if i := strings.LastIndex(pn, "/"); i >= 0 {
+			pn = pn[i+1:]
+		}
+		if o, ok := typeOld[pn+"."+cur]; ok {
+			return o[strings.Index(o, ".")+1:]
+		}
+		return cur
+	}
+	type tk struct{ pkg, typ string }
+	refBy, curBy := map[tk][]FieldSig{}, map[tk][]FieldSig{}
+	for _, f := range ref {
+		refBy[tk{f.Pkg, f.Type}] = append(refBy[tk{f.Pkg, f.Type}], f)
+	}
+	for _, f := range p.FieldSnapshot() {
+		curBy[tk{f.Pkg, f.Type}] = append(curBy[tk{f.Pkg, f.Type}], f)
+	}
+	for k, cfs := range curBy {
+		rfs := refBy[tk{k.pkg, oldTypeName(k.pkg, k.typ)}]
+		if rfs == nil {
+			continue
+		}
+		has := func(fs []FieldSig, n string) bool {
+			for _, f := range fs {
+				if f.Name == n {
+					return true
+				}
+			}
+			return false
+		}
+		goneBy, freshBy := map[string][]FieldSig{}, map[string][]FieldSig{}
+		for _, f := range rfs {
+			if !has(cfs, f.Name) {
+				goneBy[f.FType] = append(goneBy[f.FType], f)
+			}
+		}
+		for _, f := range cfs {
+			if !has(rfs, f.Name) {
+				freshBy[f.FType] = append(freshBy[f.FType], f)
+			}
+		}
+		for ft, olds := range goneBy {
+			news := freshBy[ft]
+			if len(olds) == 1 && len(news) == 1 {
+				res[k.pkg+"."+k.typ+"."+news[0].Name] = olds[0].Name
+				p.Renames = append(p.Renames, fmt.Sprintf("field %s.%s.%s is %s of the reference tree, renamed", k.pkg, k.typ, news[0].Name, olds[0].Name))
+				continue
+			}
+			// several fields of one type renamed at once: pair by position when the struct kept its layout
+			if len(rfs) == len(cfs) {
+				for _, o := range olds {
+					for _, n := range news {
+						if n.Index == o.Index {
+							res[k.pkg+"."+k.typ+"."+n.Name] = o.Name
+							p.Renames = append(p.Renames, fmt.Sprintf("field %s.%s.%s is %s of the reference tree, renamed (same position)", k.pkg, k.typ, n.Name, o.Name))
+						}
+					}
+				}
+			}
+		}
+	}
+	return res
+}
